@@ -1100,14 +1100,20 @@ def tr_weighted_mi(tree):
 
 # ------------------------------------------------------------------------------------------ entropy.py
 def tr_shannon_entropy(tree):
-    """if normalize: p = np.copy(p) / np.sum(p)
+    """p = np.asarray(p)
+    if normalize: p = np.copy(p) / np.sum(p)
     L = np.log(p, where=(p <op> c), out=np.zeros(np.shape(p), dtype=float))
     H = -np.sum(p * L);  return H            (p is read as the flat list of its cells)"""
     fn = find_func(tree, "shannon_entropy", REL_EN)
     check_sig(fn, ["p", "normalize"], ["True"])
     b = strip_doc(fn.body)
+    # the argument is first read as a plain array of cells: with an np.matrix (what `.todense()` returns) left as it
+    # is, `p * log_p` below would be a matrix product.  On the flat list of cells the statement is the identity.
+    if not b or U(b[0]) != "p = np.asarray(p)":
+        reject(fn, "expected `p = np.asarray(p)` first (an np.matrix argument would turn p * log p into a matrix product)")
+    b = b[1:]
     if len(b) != 4:
-        reject(fn, "expected normalisation; masked log; H; return")
+        reject(fn, "expected p = np.asarray(p); normalisation; masked log; H; return")
     if U(b[0]) not in ("if normalize:\n    p = np.copy(p) / np.sum(p)", "if normalize:\n    p = p / np.sum(p)"):
         reject(b[0], "expected `if normalize: p = np.copy(p) / np.sum(p)`")
     lines = ["let p := if normalize then map (fun a_ => (a_ / Rsum p)%R) p else p in"]
